@@ -264,6 +264,8 @@ func (p *Provider) loadRuleSet(fileName string) (*config2.RuleSet, error) {
 			"failed opening file %s", fileName).CausedBy(err)
 	}
 
+	defer file.Close()
+
 	md := sha256.New()
 
 	ruleSet, err := config2.ParseRules("application/yaml", io.TeeReader(file, md), p.envVarsEnabled)
@@ -272,7 +274,13 @@ func (p *Provider) loadRuleSet(fileName string) (*config2.RuleSet, error) {
 			CausedBy(err)
 	}
 
-	stat, _ := os.Stat(fileName)
+	// the information is taken from the opened file: the file may have been removed
+	// or renamed in the meantime (which is then notified by a further event)
+	stat, err := file.Stat()
+	if err != nil {
+		return nil, errorchain.NewWithMessagef(heimdall.ErrInternal,
+			"failed to get information about file %s", fileName).CausedBy(err)
+	}
 
 	ruleSet.Hash = md.Sum(nil)
 	ruleSet.Source = "file_system:" + fileName
